@@ -297,7 +297,7 @@ fn build(g: &Grammar, thorough: bool, deep: bool) -> Vec<C2Case> {
             }
         }
         out.push(C2Case { case: Case { label: "record-layout-reverse-positions".into(), class: "reorder".into(), text: doc.text(), spec: None, parts: vec![] }, keep: vec![], limit: None });
-        for (label, text) in position_docs(g) {
+        for (label, text) in position_docs(g).into_iter().chain(position_mixed_docs(g)) {
             out.push(C2Case { case: Case { label, class: "reorder".into(), text, spec: None, parts: vec![] }, keep: vec![], limit: None });
         }
         // file level: PROJECT before ASAP2_VERSION is not valid per I (version first), so only the RECORD_LAYOUT case
@@ -559,6 +559,50 @@ pub fn position_docs(g: &Grammar) -> Vec<(String, String)> {
                 doc.root.at_mut(&path).children.push(c);
             }
             out.push((format!("record-layout-position:{}:{arr}", r.tag), doc.text()));
+        }
+    }
+    out
+}
+
+/// position-carrying children of a RECORD_LAYOUT out of position order with unrestricted children (ALIGNMENT_*,
+/// STATIC_RECORD_LAYOUT) and comments in front of and between them
+pub fn position_mixed_docs(g: &Grammar) -> Vec<(String, String)> {
+    let mut out = Vec::new();
+    for ktag in ["FNC_VALUES", "NO_AXIS_PTS_X", "RESERVED", "AXIS_RESCALE_X"] {
+        let others: [&str; 2] = if ktag == "FNC_VALUES" { ["AXIS_PTS_Y", "NO_AXIS_PTS_X"] } else { ["FNC_VALUES", "AXIS_PTS_X"] };
+        // U = unrestricted keyword, S = STATIC_RECORD_LAYOUT, 0 / 1 = the other positioned children (positions 30 / 10), K = the child under test (20)
+        for shape in ["U0K", "0UK", "0KU", "U0K1", "0U1K", "S0UK1", "0K", "K0U1", "UK01U"] {
+            for comment_before_k in [false, true] {
+                let mut gen = Gen::new(g);
+                let (mut doc, path) = gen.carrier_v("RECORD_LAYOUT", 5, 1);
+                let mut n_u = 0;
+                for ch in shape.chars() {
+                    let (tag, pos): (&str, Option<i32>) = match ch {
+                        'U' => {
+                            n_u += 1;
+                            (["ALIGNMENT_BYTE", "ALIGNMENT_WORD", "ALIGNMENT_LONG"][(n_u - 1) % 3], None)
+                        }
+                        'S' => ("STATIC_RECORD_LAYOUT", None),
+                        '0' => (others[0], Some(30)),
+                        '1' => (others[1], Some(10)),
+                        _ => (ktag, Some(20)),
+                    };
+                    let mut c = gen.min_node(tag, 5, 1);
+                    if let Some(p) = pos {
+                        c.params[0].text = p.to_string();
+                    }
+                    doc.root.at_mut(&path).children.push(c);
+                }
+                let mut text = doc.text();
+                if comment_before_k {
+                    let needle = format!("{ktag} 20");
+                    if let Some(at) = text.find(&needle) {
+                        let line_start = text[..at].rfind('\n').map(|x| x + 1).unwrap_or(0);
+                        text.insert_str(line_start, "      /* about the next item */\n");
+                    }
+                }
+                out.push((format!("record-layout-mixed:{ktag}:{shape}{}", if comment_before_k { "+comment" } else { "" }), text));
+            }
         }
     }
     out
